@@ -278,6 +278,25 @@ theorem delete_spares_snapshot_paths (c : Cfg P) (L : LawfulCmp c.cmp) (ds : Lis
   obtain ⟨isDir, h⟩ := mem_removedOf hp
   exact (mergewalk_classes c L ds ns hd hn).1 p isDir true h
 
+/-- **delete_spares_hidden_snapshot_paths.**  The entries `--delete` removes *implicitly* — those below a removed directory,
+which the walk never visits (`skip_current_dir`) — are no snapshot paths either, provided the node stream is a tree walk:
+above every node lies a directory node (`hparent`: a node below the destination directory `d` ⇒ a directory node at `d`'s
+path; `NodeStreamer` yields a directory before its content).  Together with `delete_spares_snapshot_paths`: with sorted
+streams no snapshot path whose entry fits the node's type is removed, directly or with a directory above it. -/
+theorem delete_spares_hidden_snapshot_paths (c : Cfg P) (L : LawfulCmp c.cmp) (ds : List (DEnt P)) (ns : List (NEnt P))
+    (hd : SortedD c ds) (hn : SortedN c ns)
+    (hparent : ∀ n ∈ ns, ∀ d ∈ ds, c.under d.path n.path = true → ∃ m ∈ ns, m.path = d.path ∧ m.kind = .dir) :
+    ∀ q, Ev.skipped q ∈ walk c ds ns → ∀ n ∈ ns, n.path ≠ q := by
+  intro q hq n hn' hnq
+  obtain ⟨d, hdm, hk, hu, r, hadd⟩ := walk_skipped_origin c ds ns q hq
+  obtain ⟨m, hm, hmp, hmk⟩ := hparent n hn' d hdm (by rw [hnq]; exact hu)
+  rcases (mergewalk_classes c L ds ns hd hn).1 d.path true r hadd with h | ⟨n', hn'', d', hd', h1, h2, h3⟩
+  · exact h m hm hmp
+  · have e1 : n' = m := sorted_path_unique L (fun x : NEnt P => x.path) hn n' hn'' m hm (h1.trans hmp.symm)
+    have e2 : d' = d := sorted_path_unique L (fun x : DEnt P => x.path) hd d' hd' d hdm h2
+    subst e1; subst e2
+    simp [mismatch, hmk, hk] at h3
+
 /-- non-vacuity: paths are numbers, the children of directory `d` are `10·d … 10·d+9`.  Destination: dir 1 (with 10, 11),
 file 2, file 3; snapshot: file 2, dir 3, file 4; `--delete`. -/
 def exCfg (delete : Bool) : Cfg Nat :=
@@ -297,6 +316,15 @@ example : LawfulCmp (exCfg true).cmp :=
 
 example : SortedD (exCfg true) [⟨1, .dir⟩, ⟨2, .file⟩, ⟨3, .file⟩] ∧ SortedN (exCfg true) [⟨2, .file⟩, ⟨3, .dir⟩, ⟨4, .file⟩] := by
   simp [SortedD, SortedN, exCfg, Nat.compare_eq_lt]
+
+/-- non-vacuity of `delete_spares_hidden_snapshot_paths`: destination directory 1 (holding 10) is additional, 10 is never
+visited; the tree-walk hypothesis holds for the stream [2] -/
+example : Ev.skipped 10 ∈ walk (exCfg true) [⟨1, .dir⟩, ⟨10, .file⟩] [⟨2, .file⟩] ∧
+    (∀ n ∈ [(⟨2, .file⟩ : NEnt Nat)], ∀ d ∈ [(⟨1, .dir⟩ : DEnt Nat), ⟨10, .file⟩], (exCfg true).under d.path n.path = true →
+      ∃ m ∈ [(⟨2, .file⟩ : NEnt Nat)], m.path = d.path ∧ m.kind = .dir) := by
+  constructor
+  · simp [walk, existingEvs, skipSplit, exCfg, compare, compareOfLessAndEq]
+  · simp [exCfg]
 
 /-- Witness for the sortedness hypothesis of `delete_spares_snapshot_paths` (the seeded change C14-3): directory 1 holds
 10 and 11, file 2 is its sibling; listing and stream are in walk order (1, 10, 11, 2 — "`a/keep`, `a/notes`, `a.txt`"), but
